@@ -120,4 +120,25 @@ CLAIMS = {
         'design_ref': 'DESIGN.md 4.2-4.4, 5 (C13)',
         'note': TRUST + '; assumes the SVD contract U.diag(s).V == M (C12)',
     },
+    'C11': {
+        'technique': 'static analysis: frame / charge-tag typing (special-purpose abstract interpretation of bond_ops.qr), effects',
+        'text': 'Covers every branch of the block QR including the ones the suite never takes (only one side unsorted, '
+                'already sorted, no common charge): matrix axes and charge vectors are sorted together under the same '
+                'guard and un-sorted with argsort of the same permutation on the right axis; every block read / write '
+                'connects rows@q with cols@q of the shared charge q; the dummy-bond branch is a shape- and '
+                'charge-consistent factorisation with dimension one; inputs are never written.  Exactness and isometry of '
+                'the dense block factorisations (NumPy) are not decided.',
+        'design_ref': 'DESIGN.md 4.5, 5 (C11)',
+        'note': TRUST,
+    },
+    'C12': {
+        'technique': 'static analysis: frame / charge-tag typing of split_matrix_svd, bond-leg restriction rule, effects, leg-domain rules for split_mps_tensor',
+        'text': 'Same frame and block rules as C11 for the SVD split (sibling implementation), plus: one retained index set '
+                'restricts u, s, v and q along the intermediate axis; the three routines never write their inputs (an '
+                'in-place normalisation of the singular values is reported); split_mps_tensor distributes the singular '
+                'values with total exponent 1 in all three modes, with the right charge orientation, and merging undoes the '
+                'split.  Which singular values are kept, the error identity and the tolerance bound are not decided.',
+        'design_ref': 'DESIGN.md 4.5, 4.4, 4.1, 5 (C12)',
+        'note': TRUST,
+    },
 }
